@@ -36,6 +36,8 @@ def check(run):
         run.guard("C18.4.escape-table", cfg, lambda: rule_escape(run, F, cfg))
         run.guard("C18.5.invocation", cfg, lambda: rule_invocation(run, F, cfg))
         from . import wire_keys as _wk
+        run.guard("C18.7.resource-wire-keys", cfg + "/derived", lambda: run.floor(
+            "C18.7.resource-wire-keys", f"derived decoders [{cfg}]", _wk.rule_derived(run, "C18.7.resource-wire-keys", F, cfg), 6))
         run.guard("C18.7.resource-wire-keys", cfg, lambda: run.floor(
             "C18.7.resource-wire-keys", f"resource keys / variants compared [{cfg}]",
             _wk.rule_keys(run, "C18.7.resource-wire-keys", F, cfg, _wk.RESOURCE, _wk.RESOURCE_VARIANTS,
@@ -55,6 +57,9 @@ def check(run):
         run.guard("C18.via.C08.3.legacy-bijection", cfg, lambda: _C08.rule_legacy(b8, F, cfg))
         b162 = run.borrow("C16", only=r"\|(inject|uninject)$", why="a scriptlet exception removes exactly the identical injection: the exception bin is keyed by the script text alone")
         run.guard("C18.via.C16.2.bin-pairing", cfg, lambda: _C16.rule_pairing(b162, F, cfg))
+        from . import C13 as _C13u
+        b13 = run.borrow("C13", why="after use_resources a scriptlet is gated by the permission of the resource in the NEW bundle, not by an older definition that was kept")
+        run.guard("C18.via.C13.5.lookup", cfg, lambda: _C13u.rule_use_resources(b13, F, cfg))
 
 
 # ------------------------------------------------------------------ tiny expression evaluator
